@@ -60,12 +60,29 @@ pub struct SendCase {
     pub post: Vec<Step>,
     /// one script per connection, with the Location value the response on it carries (if any)
     pub hops: Vec<(Vec<Seg>, Option<Vec<u8>>)>,
+    /// leave the TLS layer out of CONNECT tunnels (hook `set_plain_tunnels`): the script of a tunnelled
+    /// connection is the proxy's reply followed by the origin's answer, and what the client writes inside
+    /// the tunnel is observed in clear
+    pub plain_tunnel: bool,
 }
 
 #[derive(Clone, Debug)]
 pub struct HopObs {
     pub dial: DialInfo,
     pub written: Vec<u8>,
+    /// plain-tunnel mode: the handshake that was left out on this connection
+    pub tunnel: Option<verif_hooks::TunnelInfo>,
+}
+
+impl HopObs {
+    /// (what was written up to and including the CONNECT head, what was written after it)
+    pub fn split_connect(&self) -> Option<(&[u8], &[u8])> {
+        if !self.written.starts_with(b"CONNECT ") {
+            return None;
+        }
+        let p = self.written.windows(4).position(|x| x == b"\r\n\r\n")?;
+        Some((&self.written[..p + 4], &self.written[p + 4..]))
+    }
 }
 
 #[derive(Clone, Debug)]
@@ -85,6 +102,8 @@ pub struct SendObs {
     pub url: Option<Url>,
     pub prepared_headers: Vec<(String, Vec<u8>)>,
     pub prepare_error: Option<String>,
+    /// the case ran in plain-tunnel mode
+    pub plain: bool,
 }
 
 /// A user-defined streaming body: the `programs` quantifier of C07.
@@ -220,7 +239,11 @@ impl SendCase {
         let mut ops: Vec<String> = self.pre.iter().map(step_op).collect();
         let d = |v: &str| format!("d:{}:{}", hex(b"content-type"), hex(v.as_bytes()));
         // body → (kind, content type from the Body, rewindable, writes)
-        let first_body: Vec<u8> = obs.hops.first().map(|h| body_of(&h.written)).unwrap_or_default();
+        // (first hop through a plain tunnel: the request is what follows the CONNECT head)
+        let first_body: Vec<u8> = obs.hops.first().map(|h| match (h.split_connect(), &h.tunnel) {
+            (Some((_, inner)), Some(_)) => body_of(inner),
+            _ => body_of(&h.written),
+        }).unwrap_or_default();
         let (kind, ct, rw, writes): (String, Option<String>, bool, Vec<Vec<u8>>) = match &self.body {
             BodyR::Empty => ("E".into(), None, true, vec![]),
             BodyR::Text(s) => {
@@ -287,7 +310,8 @@ impl SendCase {
         // a further connection (if the code makes one) finds a peer that closes at once
         hops.push("-@~".to_string());
         format!(
-            "send {} {} {} {} {} {}",
+            "{} {} {} {} {} {} {}",
+            if self.plain_tunnel { "sendpt" } else { "send" },
             self.method,
             cfg,
             if ops.is_empty() { "-".to_string() } else { ops.join(",") },
@@ -377,6 +401,38 @@ pub fn client_hello_sni(b: &[u8]) -> Option<Option<String>> {
 
 impl SendObs {
     pub fn line(&self) -> String {
+        if self.plain {
+            return self.line_plain();
+        }
+        self.line_tls()
+    }
+
+    /// plain-tunnel mode: six fields per connection (the last one is the request written inside the tunnel)
+    fn line_plain(&self) -> String {
+        let hops: Vec<String> = self
+            .hops
+            .iter()
+            .map(|h| {
+                let (clear, inner) = match (h.split_connect(), &h.tunnel) {
+                    (Some((head, after)), Some(_)) => (head.to_vec(), Some(after.to_vec())),
+                    _ => (h.written.clone(), None),
+                };
+                let tls = h.tunnel.as_ref().map(|t| hex_or_dash(t.name.as_bytes())).unwrap_or("~".into());
+                let inner = inner.map(|w| hex_or_dash(&canon_wire(&w))).unwrap_or("~".into());
+                format!("{}:{}:{}:{}:{}:{}", hex(h.dial.scheme.as_bytes()), hex(h.dial.host.as_bytes()), h.dial.port, hex_or_dash(&canon_wire(&clear)), tls, inner)
+            })
+            .collect();
+        let fin = match &self.fin {
+            FinalObs::Ok(st, url) => format!("ok:{}:{}", st, hex(url.as_bytes())),
+            FinalObs::Err(k) => format!("e:{}", k),
+            FinalObs::ConnectError(st, body) => format!("connectError:{}:{}", st, hex_or_dash(body)),
+            FinalObs::Blocked => "b".into(),
+            FinalObs::Panic => "P".into(),
+        };
+        format!("hops={} final={}", hops.join("|"), fin)
+    }
+
+    fn line_tls(&self) -> String {
         let hops: Vec<String> = self
             .hops
             .iter()
@@ -480,8 +536,11 @@ fn finish<B: attohttpc::body::Body>(rb: attohttpc::RequestBuilder<B>, case: &Sen
         s.dials.push((info.clone(), log));
         Some(Ok(Box::new(script) as Box<dyn verif_hooks::Transport>))
     }));
+    verif_hooks::set_plain_tunnels(case.plain_tunnel);
     let res = catch_unwind(AssertUnwindSafe(|| prepared.send()));
     verif_hooks::clear_dial_factory();
+    let mut tunnels = verif_hooks::take_tunnel_log().into_iter();
+    verif_hooks::set_plain_tunnels(false);
     obs.fin = match res {
         Err(_) => FinalObs::Panic,
         Ok(Ok(resp)) => FinalObs::Ok(resp.status().as_u16(), url_show(resp.url())),
@@ -495,12 +554,17 @@ fn finish<B: attohttpc::body::Body>(rb: attohttpc::RequestBuilder<B>, case: &Sen
     };
     let s = shared.lock().unwrap();
     for (d, log) in &s.dials {
-        obs.hops.push(HopObs { dial: d.clone(), written: log.lock().unwrap().written.clone() });
+        let mut h = HopObs { dial: d.clone(), written: log.lock().unwrap().written.clone(), tunnel: None };
+        // a handshake was left out on this connection iff the proxy agreed to the CONNECT: in order
+        if case.plain_tunnel && h.split_connect().map_or(false, |(_, after)| !after.is_empty()) {
+            h.tunnel = tunnels.next();
+        }
+        obs.hops.push(h);
     }
 }
 
 pub fn run_send(case: &SendCase) -> SendObs {
-    let mut obs = SendObs { hops: vec![], fin: FinalObs::Panic, url: None, prepared_headers: vec![], prepare_error: None };
+    let mut obs = SendObs { hops: vec![], fin: FinalObs::Panic, url: None, prepared_headers: vec![], prepare_error: None, plain: case.plain_tunnel };
     let method = attohttpc::Method::from_bytes(case.method.as_bytes()).unwrap_or(attohttpc::Method::GET);
     let rb = match attohttpc::RequestBuilder::try_new(method, &case.url) {
         Ok(rb) => rb,
